@@ -76,6 +76,10 @@ func VH_C17_render() {
 		// a middleware in front of the Renderer has already put a Content-Type on the response
 		f.Use(func(c Context) { c.ResponseWriter().Header().Set("Content-Type", "text/html; charset=x") })
 	}
+	if vx.Bool() {
+		// another Renderer with options of its own runs first: the one under test is configured by its own options only
+		f.Use(Renderer(RenderOptions{Charset: "iso-8859-1", JSONIndent: "\t\t", XMLIndent: "    "}))
+	}
 	f.Use(Renderer(opts...))
 	do := func(r Render) {
 		switch kind {
